@@ -30,7 +30,8 @@ def cases(tier, seed):
         out.append({'prop': ID, 'seed': seed, 'idx': i, 'family': fam, 'large': i % 20 == 7, 'tier': tier})
     out.sort(key=lambda c: not c['large'])
     from ..witness import WITNESSES
-    return [{'prop': ID, 'seed': seed, 'idx': 10 ** 6 + i, 'witness': i} for i in range(len(WITNESSES))] + out
+    return ([{'prop': ID, 'seed': seed, 'idx': 10 ** 6 + i, 'witness': i} for i in range(len(WITNESSES))]
+            + opcommon.big_cases(ID, tier, seed) + out)
 
 
 def run_large(case):
@@ -82,6 +83,8 @@ def run_large(case):
 
 
 def run_case(case):
+    if case.get('big'):
+        return opcommon.run_big_case(case, ID, CONFIGS, WEAKLY)
     if case.get('large'):
         return run_large(case)
     return opcommon.run_operator_case(case, ID, CONFIGS, WEAKLY, WANT, nq=8)
